@@ -125,6 +125,14 @@ func Field(base *Term, name string) *Term {
 		}
 		return Const("zero")
 	}
+	if base.Op == "ite" && len(base.Args) == 3 {
+		// a field of a conditional value (a result struct picked by a chain of tests) is the conditional of the fields
+		x, y := Field(base.Args[1], name), Field(base.Args[2], name)
+		if x.Key() == y.Key() {
+			return x
+		}
+		return T("ite", "", base.Args[0], x, y)
+	}
 	return T("field", name, base)
 }
 
@@ -519,6 +527,23 @@ func (f Facts) Add(a *Atom) {
 	}
 	if _, ok := f[a.Key()]; !ok {
 		f[a.Key()] = a
+		// a known conjunction is known conjunct by conjunct (wherever it was derived), a refuted disjunction is refuted
+		// disjunct by disjunct
+		if a.Pred == "truth" && len(a.Args) == 1 {
+			if t := a.Args[0]; t.Op == "and" && !a.Neg {
+				for _, x := range t.Args {
+					if c := atomOf(x, a.Site); c != nil {
+						f.Add(c)
+					}
+				}
+			} else if t.Op == "or" && a.Neg {
+				for _, x := range t.Args {
+					if c := atomOf(x, a.Site); c != nil {
+						f.Add(c.Negate())
+					}
+				}
+			}
+		}
 	}
 }
 
